@@ -46,7 +46,7 @@ int main(void) {
   int32_t line = nondet_i32(), col = nondet_i32(), lastcol = nondet_i32();
   __CPROVER_assume(line >= 1 && line < (1 << 30) && col >= 1 && col < (1 << 30) && lastcol >= 1 && lastcol < (1 << 30));
   parser_init(parser, buf, N, off, line, col, lastcol);
-  P_DEPTH(parser) = nondet_u64() % 512;                     /* Depth_Counter inside Symbol()/Char()/... : arbitrary legal depth */
+  P_DEPTH(parser) = nondet_u64() & 511;                    /* Depth_Counter inside Symbol()/Char()/... : arbitrary legal depth */
   char* before = P_POS(parser);
   uint8_t r;
 #if KIND == 0
